@@ -320,6 +320,83 @@ pub fn rec_frag(ch: &mut Chunker, opt: bool, fs: &[F], lws: &[f64], pen: Pen, sc
                    "exact": exact, "finite": finite, "usz": usz, "raw": raw, "shape": shape, "res": res, "status": status}));
 }
 
+/// The public dispatcher `WrapAlgorithm::wrap(&words, &line_widths)` on real `Word`s (found and split from `line`) with a
+/// `usize` width list of any length: logged as a `frag` event (fragment numbers through the public `Fragment` trait,
+/// shape from the pointers of the returned slices), so it is judged exactly like a direct call of the algorithm.
+pub fn rec_dispatch(ch: &mut Chunker, line: &str, sep: Sep, sp: Splitter, alg: Alg, widths: &[usize]) {
+    use textwrap::core::Fragment;
+    if widths.iter().any(|&w| w > 1_000_000) || (alg != Alg::FF && !FULL) {
+        return;
+    }
+    let splitter = sp.to_splitter();
+    let words: Vec<textwrap::core::Word<'_>> = match guarded(&|| format!("words for dispatch {:?}", line), || {
+        textwrap::word_splitters::split_words(sep.to_separator().find_words(line), &splitter).collect::<Vec<_>>()
+    }) {
+        Ok(w) => w,
+        Err(_) => return,
+    };
+    let fs: Vec<F> = words.iter().map(|w| F(w.width(), w.whitespace_width(), w.penalty_width())).collect();
+    let base = words.as_ptr() as usize;
+    let sz = std::mem::size_of::<textwrap::core::Word<'_>>();
+    let (opt, pen) = match alg {
+        Alg::FF => (false, Pen::DEFAULT),
+        Alg::Opt(p) => (true, p),
+    };
+    if !pen.small() {
+        return;
+    }
+    let r = guarded(&|| format!("WrapAlgorithm::wrap({:?}, {:?}, {:?})", alg, line, widths), || {
+        let a = match alg {
+            Alg::FF => textwrap::WrapAlgorithm::FirstFit,
+            #[cfg(feature = "full")]
+            Alg::Opt(p) => textwrap::WrapAlgorithm::OptimalFit(p.to_penalties()),
+            #[cfg(not(feature = "full"))]
+            Alg::Opt(_) => textwrap::WrapAlgorithm::FirstFit,
+        };
+        a.wrap(&words, widths).iter().map(|l| ((l.as_ptr() as usize - base) / sz, l.len())).collect::<Vec<(usize, usize)>>()
+    });
+    let fsj: Vec<Value> = fs.iter().map(|f| json!([f.0 as i64, f.1 as i64, f.2 as i64])).collect();
+    let (status, shape, res): (&str, Vec<Value>, Vec<Value>) = match &r {
+        Ok(sh) => (
+            "ok",
+            sh.iter().map(|(o, l)| json!([o, l])).collect(),
+            sh.iter().map(|(o, l)| if *l == 0 { json!([o + 1, *o]) } else { json!([o + 1, o + l]) }).collect(),
+        ),
+        Err(_) => ("panic", vec![], vec![]),
+    };
+    ch.push(json!({"ev": "frag", "alg": if opt { "opt" } else { "ff" }, "n": fs.len(), "fs": fsj, "lws": widths, "scale": 1, "pen": pen.json(),
+                   "exact": true, "finite": true, "usz": true, "raw": "", "shape": shape, "res": res, "status": status, "via": "WrapAlgorithm::wrap"}));
+}
+
+/// width lists of length 0-4 for the dispatcher, with equal neighbours that are not the final run
+fn gen_dispatch(ch: &mut Chunker, r: &mut Rng, prop: &str, scale: usize) {
+    let seps: &[Sep] = if FULL { &[Sep::Ascii, Sep::Uax] } else { &[Sep::Ascii] };
+    for i in 0..200 * scale {
+        let tc = TextCfg { max_words: 9, max_paras: 1, ansi: if i % 4 == 0 { Ansi::WellFormed } else { Ansi::None }, unicode: true, ctrl: false, crlf: false };
+        let line = gen_para(r, &tc);
+        let base = *r.pick(&[3usize, 5, 8, 11, 16, 24]);
+        for _ in 0..3 {
+            let n = r.below(5);
+            let mut ws: Vec<usize> = (0..n).map(|_| r.range(0, base + 4)).collect();
+            if n >= 3 && r.chance(1, 2) {
+                ws[1] = ws[0];
+            }
+            if n >= 4 && r.chance(1, 3) {
+                ws[2] = ws[1];
+            }
+            let sp = *r.pick(&[Splitter::None, Splitter::Hyphen, Splitter::Every2, Splitter::Every3]);
+            let sp = if line.contains('\u{1b}') && matches!(sp, Splitter::Every2 | Splitter::Every3) { Splitter::Hyphen } else { sp };
+            if prop != "C03" {
+                rec_dispatch(ch, &line, *r.pick(seps), sp, Alg::FF, &ws);
+            }
+            if FULL && prop != "C07" {
+                let w2: Vec<usize> = if prop == "C03" && ws.len() > 2 { ws[..2].to_vec() } else { ws.clone() };
+                rec_dispatch(ch, &line, *r.pick(seps), sp, Alg::Opt(if r.chance(1, 3) { gen_pen(r) } else { Pen::DEFAULT }), &w2);
+            }
+        }
+    }
+}
+
 fn gen_int_frags(r: &mut Rng, n: usize, maxw: usize, pen_ok: bool) -> Vec<F> {
     let mut v: Vec<F> = (0..n)
         .map(|_| {
@@ -420,6 +497,10 @@ pub fn gen_frags(ch: &mut Chunker, r: &mut Rng, prop: &str, thorough: bool, scal
             let lw8: Vec<f64> = lws.iter().map(|w| w + r.below(8) as f64 / 8.0).collect();
             rec_frag(ch, false, &fs8, &lw8, Pen::DEFAULT, 8);
         }
+    }
+    // the public dispatcher on real words with usize width lists of any length
+    if prop != "C04" {
+        gen_dispatch(ch, r, prop, scale);
     }
     // adversarial f64 values: shape and totality only (C06 / C04)
     if prop == "C06" || prop == "C04" {
